@@ -84,6 +84,22 @@ Proof.
                      (conj (trim_end_matches_idempotent p s) (trim_matches_empty s))).
 Qed.
 
+(* the `trim` filter with `pat` is trim_end(pat) after trim_start(pat) — whole occurrences of the
+   pattern string, never "any character of pat" *)
+Theorem C17_trim_filter_is_end_after_start : forall kw s b p b',
+  kw_find (s2l "pat") kw = Some (VStr p b') ->
+  f_trim kw (VStr s b) = BOk (vstr (trim_end_matches p (trim_start_matches p s))) /\
+  f_trim_start kw (VStr s b) = BOk (vstr (trim_start_matches p s)) /\
+  f_trim_end kw (VStr s b) = BOk (vstr (trim_end_matches p s)).
+Proof. exact f_trim_pat. Qed.
+
+(* s = pat^i ++ result ++ pat^j, and the result neither starts nor ends with pat *)
+Theorem C17_trim_pat_both_ends : forall p s, p <> [] ->
+  exists i j, s = copies i p ++ trim_end_matches p (trim_start_matches p s) ++ copies j p /\
+              ~ is_prefix p (trim_end_matches p (trim_start_matches p s)) /\
+              ~ is_suffix p (trim_end_matches p (trim_start_matches p s)).
+Proof. exact trim_both_matches_spec. Qed.
+
 (* ---------------------------------------------------------------- replace *)
 
 (* the text is cut at the leftmost non-overlapping occurrences of `from`; the pieces are kept
@@ -404,6 +420,11 @@ Example C17_ex_truncate :
 Proof. vm_compute. reflexivity. Qed.
 
 Example C17_ex_abs_min : f_abs [] (VInt I128 i128_min) = BErr EOther /\ f_abs [] (VInt I64 (- two63)) = BOk (VInt I128 two63).
+Proof. vm_compute. split; reflexivity. Qed.
+
+Example C17_ex_trim_pat_whole_occurrences :
+  trim_end_matches (s2l "xy") (trim_start_matches (s2l "xy") (s2l "yxhixy")) = s2l "yxhi" /\
+  trim_end_matches (s2l "->") (trim_start_matches (s2l "->") (s2l "--> a-b <--")) = s2l "--> a-b <--".
 Proof. vm_compute. split; reflexivity. Qed.
 
 Example C17_ex_replace : str_replace (s2l "aa") (s2l "b") (s2l "aaaa a aaa") = s2l "bb a ba".
